@@ -149,6 +149,13 @@ func (c *child) kill() {
 
 // runPool feeds jobs to the children and returns when every job (and every replacement) is done.
 func runPool(e *Env, pc *poolCfg, jobs [][]byte) error {
+	return runPoolDeadline(e, pc, jobs, 0, nil)
+}
+
+// runPoolDeadline is runPool with a budget: once `deadline` has passed no further job is started;
+// skipped(job) is called for each job that was not started.
+func runPoolDeadline(e *Env, pc *poolCfg, jobs [][]byte, deadline time.Duration, skipped func(job int)) error {
+	t0 := time.Now()
 	type item struct {
 		idx int
 		raw []byte
@@ -186,6 +193,12 @@ func runPool(e *Env, pc *poolCfg, jobs [][]byte) error {
 				}
 			}()
 			for it := range queue {
+				if deadline > 0 && time.Since(t0) > deadline {
+					mu.Lock()
+					skipped(it.idx)
+					mu.Unlock()
+					continue
+				}
 				cur := it.raw
 				for cur != nil {
 					if c == nil {
